@@ -328,6 +328,39 @@ theorem list_restores_coherence_honest (s : St) {t : FileType} (ht : isCacheable
   have hb' : s.be (t, id) = some b := hb
   rw [hh id d b h0 hb' hlen.symm]; exact hb
 
+/-! ### (4b) two handles: the repository changes behind the cache -/
+
+/-- **stale_cache_read_after_listing.**  Whatever another process (an uncached handle) did to the repository since the
+cache was filled — files removed, added, replaced by files of another size: ANY repository `s.be` against ANY cache
+directory `s.cache` — once the cached handle has listed type `t`, every whole-file read of that type through the cached
+handle returns exactly what the repository holds (an error for a file that is gone).  `Honest`: a cache entry of the same
+id and size as the repository file has its bytes (ids are content hashes). -/
+theorem stale_cache_read_after_listing (s : St) {t : FileType} (ht : isCacheable t = true)
+    {answer : List (Name × Nat)} (ha : ListingOf s.be t answer) (hh : Honest s t) {id : Name}
+    (hn : isCacheName L id = true) :
+    (readFull (listWithSize L s t answer) t id).1 = beReadFull s.be t id := by
+  have hbe : (listWithSize L s t answer).be = s.be := rfl
+  unfold readFull
+  simp only [ht, if_true]
+  cases hc : cReadFull (listWithSize L s t answer).cache t id with
+  | some d =>
+    have := list_restores_coherence_honest s ht ha hh hn hc
+    rw [hbe] at this
+    simp [beReadFull, this]
+  | none =>
+    rw [hbe]
+    cases hb : s.be (t, id) <;> simp [beReadFull, hb]
+
+/-- … and leaves the repository untouched -/
+theorem stale_cache_read_keeps_repository (s : St) (t : FileType) (answer : List (Name × Nat)) (id : Name) :
+    (readFull (listWithSize L s t answer) t id).2.be = s.be := by
+  unfold readFull
+  split
+  · split
+    · rfl
+    · split <;> rfl
+  · rfl
+
 /-! ### (5) truncated entries -/
 
 /-- A ranged read that a (truncated) cache entry cannot serve is answered from the repository, and the entry is
